@@ -22,6 +22,7 @@ import runlayer
 import vlib
 
 PID = "C22"
+CONFIRM_BY_REPLAY = True   # a new deviation is reported only if replaying its stored case repeats it
 META = {
     "cat": "model_checking",
     "text": "TLC proves on WholeProgram.tla that the cross-translation-unit report is a function of the union of the per-file summaries whatever "
